@@ -29,6 +29,11 @@ real library.
 import AutosarVerif.Lemmas.WorldOps
 import AutosarVerif.Lemmas.RenameOpC06
 import AutosarVerif.Lemmas.StepX
+import AutosarVerif.Lemmas.MoveOpC06
+import AutosarVerif.Lemmas.MoveOpPos
+import AutosarVerif.Lemmas.MoveOpWitness
+import AutosarVerif.Lemmas.StepY
+import AutosarVerif.Lemmas.MoveCopyInv
 
 namespace AV.C06
 open AV.W
@@ -96,5 +101,28 @@ theorem C06_rename_needs_exact_referrers :
 "/a1" untouched) -/
 theorem C06_hypotheses_are_met : ∃ k c, locate renWorld 1 = some (k, c) ∧
     (opRename refSpec nameEnv renWorld 1 [98]).1 ≠ renWorld ∧ CInv refSpec 6 renWorld := renWorld_hyps
+
+
+/-! ### added in the third session: statements proved in the lemma files, restated here by name
+(`type_of%` keeps the statement identical to the lemma; the signature is quoted in the comment) -/
+
+/-- **`move_element_here` of an identifiable element inside one model**, in a world with the invariants of the larger alphabet: the index is re-keyed from the old path to the destination path (with the unique-name suffix), path index and referrer lists stay exact, every reference whose text RESOLVED before is re-keyed and designates the same element object afterwards, every other reference keeps its text (`mvText`)
+`theorem opMove_real (hH : IdxHyp S V vOk) (hR : RefWF S) (w : World) (p x : Nat) (pos? : Option Nat) (hg : GInv S vOk w) {k : Nat} {cx cp : List (Hdr × Items)} {ver lo hi : Nat} {sph : Hdr} {spk : Items} (hr : MoveRun S V w p x pos? k cx cp ver lo hi sph spk) (hsp : sph.id ≠ p) (hany : (cp.any fun (h, _) => h.id = x) = false) (orig : Bytes) (hnamed : itemName S (lastOf cx).1 (lastOf cx).2 = some orig) (m' : Model) (hm' : m' = moveModel S (w.models[k]!) sph spk x p (pos?.getD hi) (lastOf cx).1 (lastOf cx).2 (pathOfChain S cx) (pathOfChain S cp) (subtreePaths S ((lastOf cx).2.size + 2) (lastOf cx).1 (lastOf cx).2 (namesOfChain S cx.dropLast))) : ∃ dest, dest = pathOfChain S cp ++ 47 :: (uniqueName (w.models[k]!).index (pathOfChain S cp) orig ((w.models[k]!).index.length + 2) 0).1 ∧ WInv S vOk (setModel w k m') ∧ WRInv S (setModel w k m') ∧ m'.index = idxFix (w.models[k]!).index (pathOfChain S cx) dest ∧ (refEntries S m'.rootItems).Perm ((refEntries S (w.models[k]!).rootItems).map fun e => (mvText (w.models[k]!).index (pathOfChain S cx) dest e.1, e.2)) ∧ (∀ t e, idxGet (w.models[k]!).index t = some e → idxGet m'.index (rekey (pathOfChain S cx) dest t) = some e)` -/
+theorem C06_move_of_named_element_follows : type_of% @AV.W.opMove_real := @AV.W.opMove_real
+
+/-- … unconditionally over the branches of the operation, for named elements
+`theorem opMove_winv_rinv_named (hH : IdxHyp S V vOk) (hR : RefWF S) (w : World) (p x : Nat) (pos? : Option Nat) (hg : GInv S vOk w) (hnamed : ∀ k cx, locate w x = some (k, cx) → itemName S (lastOf cx).1 (lastOf cx).2 ≠ none) : WInv S vOk (opMove S V w p x pos?).1 ∧ WRInv S (opMove S V w p x pos?).1` -/
+theorem C06_move_keeps_index_and_referrers_exact : type_of% @AV.W.opMove_winv_rinv_named := @AV.W.opMove_winv_rinv_named
+
+/-- a move inside one parent (position change) keeps the full invariant
+`theorem opMove_pos_ginv' (hH : IdxHyp S V vOk) (w : World) (p x : Nat) (pos? : Option Nat) (h : GInv S vOk w) (k : Nat) (cx cp : List (Hdr × Items)) (ver lo hi : Nat) (sph : Hdr) (spk : Items) (q cur : Nat) (hr : MoveRun S V w p x pos? k cx cp ver lo hi sph spk) (hq : pos? = some q) (hcur : (lastOf cp).2.childPos x 0 = some cur) (he : opMove S V w p x pos? = (setModel w k (posModel (w.models[k]!) p cur q), .ok "")) (hname : (lastOf cx).1.name ≠ S.nmShortName) : GInv S vOk (opMove S V w p x pos?).1` -/
+theorem C06_position_change_keeps_invariants : type_of% @AV.W.opMove_pos_ginv' := @AV.W.opMove_pos_ginv'
+
+/-- **over histories with moves and copies**: for a successful move of a named element to another parent, issued in ANY state reachable by guarded steps of `OpY`: index re-keyed to the destination path, index and referrer lists exact afterwards, every reference whose text resolved is re-keyed and designates the same element object, every other keeps its text
+`theorem reachY_move_refs (hH : IdxHyp S V vOk) (hR : RefWF S) (hv32 : vOk &&& 0xFFFFFFFF = vOk) {w : World} (hreach : ReachY S V vOk rootAttrs w) (p x : Nat) (pos? : Option Nat) (hok : (opMove S V w p x pos?).2 = .ok "") (k : Nat) (cx : List (Hdr × Items)) (hlx : locate w x = some (k, cx)) (hpar : ∀ sph spk, cx.dropLast.getLast? = some (sph, spk) → sph.id ≠ p) (orig : Bytes) (hnamed : itemName S (lastOf cx).1 (lastOf cx).2 = some orig) : ∃ cp dest, locate w p = some (k, cp) ∧ dest = pathOfChain S cp ++ 47 :: (uniqueName (w.models[k]!).index (pathOfChain S cp) orig ((w.models[k]!).index.length + 2) 0).1 ∧ WInv S vOk (applyOpY S V rootAttrs w (.move p x pos?)).1 ∧ WRInv S (applyOpY S V rootAttrs w (.move p x pos?)).1 ∧ ((applyOpY S V rootAttrs w (.move p x pos?)).1.models[k]!).index = idxFix (w.models[k]!).index (pathOfChain S cx) dest ∧ (refEntries S ((applyOpY S V rootAttrs w (.move p x pos?)).1.models[k]!).rootItems).Perm ((refEntries S (w.models[k]!).rootItems).map fun e => (mvText (w.models[k]!).index (pathOfChain S cx) dest e.1, e.2)) ∧ (∀ t e, idxGet (w.models[k]!).index t = some e → idxGet ((applyOpY S V rootAttrs w (.move p x pos?)).1.models[k]!).index (rekey (pathOfChain S cx) dest t) = some e)` -/
+theorem C06_move_follows_in_every_reachable_state : type_of% @AV.W.reachY_move_refs := @AV.W.reachY_move_refs
+
+/-- `theorem opMove_ginv (hH : IdxHyp S V vOk) (hR : RefWF S) (hv32 : vOk &&& 0xFFFFFFFF = vOk) (w : World) (p x : Nat) (pos? : Option Nat) (hg : GInv S vOk w) (hgd : MoveGuard S w p x) : GInv S vOk (opMove S V w p x pos?).1` -/
+theorem C06_guarded_move_keeps_all_invariants : type_of% @AV.W.opMove_ginv := @AV.W.opMove_ginv
 
 end AV.C06
